@@ -41,6 +41,12 @@ VQ_OP(diagonal) { auto A = t.crs(); bool inv = t.i() != 0;
     auto d = be::diagonal(*A, inv);
     std::vector<Q> v(d->size()); for (size_t i = 0; i < v.size(); ++i) v[i] = (*d)[i];
     return show(v); }
+// the same in binary64 (power-of-two data: every operation exact): tiny but non-zero diagonal entries must be inverted, only an
+// exactly zero entry is replaced by the identity
+VQ_OP(diagonal_d) { auto A = t.crsT<double>(); bool inv = t.i() != 0;
+    auto d = be::diagonal(*A, inv);
+    std::vector<double> v(d->size()); for (size_t i = 0; i < v.size(); ++i) v[i] = (*d)[i];
+    return show(v); }
 VQ_OP(pointwise) { auto A = t.crs(); long bs = t.i();
     auto P = be::pointwise_matrix(*A, (unsigned)bs); return show_crs(*P); }
 VQ_OP(specrad) { bool scale = t.i() != 0; long nt = t.i(); auto A = t.crs(); need_nt(nt);
